@@ -348,6 +348,103 @@ def job_history(period, first_blocks, hdr_mode, nant):
     return recs
 
 
+def job_history_array(delays, first_blocks, npol, source):
+    """a real antenna source (MultiAntennaArray with delays, or Antenna) carrying time-dependent tones, noise free:
+    the recording made after an earlier one equals the recording of a fresh, identical source started at the same instant"""
+    from props import C02
+    from props.C10 import proxy as gen_proxy
+    recs = []
+    tag = f"C12:history-source:{(tuple(delays), first_blocks, npol, source)}"
+    pl = dict(fn='history_source', delays=list(delays), first_blocks=first_blocks, npol=npol, source=source)
+    fs = MemFS()
+    with volt_patches(opener=fs.open, proxy=gen_proxy()):
+        def mk(t_start):
+            be, arr, ws, _, _ = C02.build_array(4, 2, 3, 2, npol, delays, noise=False, tone=True, t_start=t_start)
+            if source == 'antenna':
+                ant = A.Antenna(sample_rate=1024.0, fch1=4096.0, ascending=True, num_pols=npol, t_start=t_start, seed=5)
+                for pi, st in enumerate(ant.streams):
+                    st.add_constant_signal(4096.0 + 100.0 + 7.0 * pi, 0.0, 1.0)
+                be2 = B.RawVoltageBackend(ant, C02.UQ(), PF.PolyphaseFilterbank(num_taps=2, num_branches=4), C02.UCQ(num_bits=8), start_chan=0, num_chans=2,
+                                          block_size=6 * 2 * 2 * npol, blocks_per_file=2, num_subblocks=2)
+                for p in range(npol):
+                    be2.digitizer[0][p].ident = (0, p)
+                    be2.requantizer[0][p].ident = (0, p)
+                    be2.filterbank[0][p].window = be.filterbank[0][0].window
+                return be2, ant
+            return be, arr
+        beA, srcA = mk(0.25)
+        kw = dict(length_mode='num_blocks', header_dict={}, digitize=True, verbose=False, load_template=False)
+        beA.record('/mem/a1', num_blocks=first_blocks, **kw)
+        tmid = srcA.t_start
+        beA.record('/mem/a2', num_blocks=2, **kw)
+        beB, srcB = mk(tmid)
+        beB.record('/mem/b2', num_blocks=2, **kw)
+    fa, fb_ = file_terms(fs, '/mem/a2'), file_terms(fs, '/mem/b2')
+    dis, ok = [], [n for n, _ in fa] == [n for n, _ in fb_] and all(len(a) == len(b) for (_, a), (_, b) in zip(fa, fb_))
+    if ok:
+        for (_, a), (_, b) in zip(fa, fb_):
+            for x, y in zip(a, b):
+                if isinstance(x, int) or isinstance(y, int):
+                    continue
+                d = z3.simplify(lift(x) - lift(y))
+                if not (z3.is_rational_value(d) and d.numerator_as_long() == 0):
+                    dis.append(d != 0)
+    r, m = core.check(([z3.Or(*dis)] if dis else [z3.BoolVal(False)]) if ok else [z3.BoolVal(True)], timeout_ms=120000)
+    recs.append(q(tag, r, by_solver=len(dis), t_mid=str(tmid)))
+    if r == 'sat':
+        recs.append(cex('C12:history:source-clock', f"{source}: the recording made after an earlier recording differs from the same recording of a fresh source started at the same instant", pl, name=tag))
+    # twin: the second recording is not the first one again (time moved on)
+    f1 = file_terms(fs, '/mem/a1')
+    d1 = [z3.simplify(lift(x) - lift(y)) for x, y in zip(f1[0][1], fa[0][1]) if not isinstance(x, int)]
+    moved = any(not (z3.is_rational_value(d) and d.numerator_as_long() == 0) for d in d1)
+    recs.append(q(tag + ':twin', 'sat' if moved else 'unsat', expect='sat'))
+    return recs
+
+
+def replay_history_source(p):
+    import shutil
+    import tempfile
+    from setigen.voltage import backend as bk, polyphase_filterbank as pf, quantization as qz, antenna as an
+    d = tempfile.mkdtemp(prefix='c12s_', dir='/var/tmp')
+    npol, delays = p['npol'], p['delays']
+
+    class FQ(qz.RealQuantizer):
+        def quantize(s, v, custom_std=None):
+            return np.clip(np.around(v * 20), -128, 127)
+
+    class FCQ(qz.ComplexQuantizer):
+        def quantize(s, v, custom_stds=None):
+            return np.clip(np.around(np.real(v) * 2), -128, 127) + 1j * np.clip(np.around(np.imag(v) * 2), -128, 127)
+
+    def mk(t_start):
+        if p['source'] == 'antenna':
+            src = an.Antenna(sample_rate=1024.0, fch1=4096.0, ascending=True, num_pols=npol, t_start=t_start, seed=5)
+            streams, nant = src.streams, 1
+        else:
+            src = an.MultiAntennaArray(num_antennas=len(delays), sample_rate=1024.0, fch1=4096.0, ascending=True, num_pols=npol, delays=list(delays), t_start=t_start, seed=5)
+            streams, nant = [s_ for a in src.antennas for s_ in a.streams], len(delays)
+            for pi, bg in enumerate(src.bg_streams):
+                bg.add_constant_signal(4096.0 + 200.0 + 5.0 * pi, 0.0, 2.0)
+        for k, st in enumerate(streams):
+            st.add_constant_signal(4096.0 + 100.0 + 7.0 * k, 0.0, 1.0)
+        be = bk.RawVoltageBackend(src, FQ(), pf.PolyphaseFilterbank(num_taps=2, num_branches=4), FCQ(num_bits=8), start_chan=0, num_chans=2,
+                                  block_size=6 * nant * 2 * 2 * npol, blocks_per_file=2, num_subblocks=2)
+        return be, src
+    try:
+        kw = dict(length_mode='num_blocks', header_dict={}, digitize=True, verbose=False, load_template=False)
+        beA, srcA = mk(0.25)
+        beA.record(os.path.join(d, 'a1'), num_blocks=p['first_blocks'], **kw)
+        tmid = srcA.t_start
+        beA.record(os.path.join(d, 'a2'), num_blocks=2, **kw)
+        beB, srcB = mk(tmid)
+        beB.record(os.path.join(d, 'b2'), num_blocks=2, **kw)
+        ra, rb = open(os.path.join(d, 'a2.0000.raw'), 'rb').read(), open(os.path.join(d, 'b2.0000.raw'), 'rb').read()
+        nd = sum(1 for x, y in zip(ra, rb) if x != y) + abs(len(ra) - len(rb))
+        return nd > 0, f"{p['source']} with delays {delays}: second recording differs from a fresh source started at t={tmid!r} in {nd} of {len(ra)} bytes"
+    finally:
+        shutil.rmtree(d, ignore_errors=True)
+
+
 def job_history_cross(order):
     """array recording then single-antenna recording (or vice versa) in one process vs the second one alone"""
     recs = []
@@ -602,7 +699,7 @@ def replay_seeded(p):
     return (not np.array_equal(outs[0], outs[1])), f"{p['kind']}: two runs with identical seeds differ (max abs diff {np.max(np.abs(outs[0] - outs[1])) if outs[0].shape == outs[1].shape else 'shape'})"
 
 
-REPLAYS = {'history': replay_history, 'seeded': replay_seeded, 'copy': replay_concrete_job(job_copy), 'cross': replay_concrete_job(job_history_cross), 'distinct': replay_concrete_job(job_distinct)}
+REPLAYS = {'history': replay_history, 'history_source': replay_history_source, 'seeded': replay_seeded, 'copy': replay_concrete_job(job_copy), 'cross': replay_concrete_job(job_history_cross), 'distinct': replay_concrete_job(job_distinct)}
 
 
 def main():
@@ -627,6 +724,8 @@ def main():
             for hdr_mode in ('default', 'explicit'):
                 jobs.append(('job_history', (period, first_blocks, hdr_mode, 1)))
     jobs.append(('job_history', (3, 1, 'explicit', 2)))
+    for (delays, fb_, npol, source) in (((0, 3), 1, 1, 'array'), ((2, 0), 2, 2, 'array'), ((0, 0), 1, 1, 'array'), ((0,), 1, 2, 'antenna'), ((0,), 2, 1, 'antenna')):
+        jobs.append(('job_history_array', (delays, fb_, npol, source)))
     for order in ('array-then-single', 'single-then-array'):
         jobs.append(('job_history_cross', (order,)))
     jobs.append(('job_copy', ()))
